@@ -13,13 +13,13 @@ MODES = ("none", "zod")
 BATCH = 100
 
 
-def generate_types(tier, seed, d, cfg=None, simulate=True, keyf=None):
+def generate_types(tier, seed, d, cfg=None, simulate=True, keyf=None, min_cases=1000):
     """-> list of abstract type ASTs (dicts), exhaustive part first, then simulated deep samples."""
     if cfg is None:
         cfg = "Gen_Types_d3" if tier == "thorough" else "Gen_Types_d2"
     g = C.run_tlc("Gen_Types", cfg, workers=4, timeout=1800, heap="8g")
     exhaustive = g.json_lines("REPLAY")
-    if len(exhaustive) < 1000:
+    if len(exhaustive) < min_cases:
         raise C.ToolError("Gen_Types produced %d cases\n%s" % (len(exhaustive), g.out[-2000:]))
     num = 60 if tier == "quick" else 400
     depth = 5 if tier == "quick" else 6
